@@ -214,3 +214,88 @@ Example C01_bulk_sort_outside :
   snd (s_run mini_match mini_apply mini_extract mini_project 0 s_init hist) =
     [RBulk 0 0 0 0 0 [] []].
 Proof. vm_compute. split; reflexivity. Qed.
+
+(* ---------------- the catalog-level calls (Model/DriverExt.v) ----------------
+   What CreateCollection, ListCollections and ListDatabases return, stated
+   directly against the catalog (the "plain sequential model" of these calls
+   is the set of namespaces): for ANY matcher semantics. *)
+From Lungo.Model Require Import DriverExt.
+From Lungo.Proofs Require Import DriverExtProofs SortProofs.
+
+(* ListCollections(db, q) returns exactly the specification documents of the
+   namespaces of db that q accepts (no_error: the matcher is defined on them;
+   otherwise the call fails, C01_listing_fails_with_the_matcher) *)
+Theorem C01_list_collections_exact :
+  forall matchf c db q res,
+    no_error (fun d => matchf d q) (map (fun hc => coll_spec (fst hc))
+                                        (filter (fun hc => String.eqb (fst (fst hc)) db) (cat_ns c))) ->
+    txn_list_collections matchf c db q = inl res ->
+    forall d, In d res <->
+              exists name nc, In ((db, name), nc) (cat_ns c) /\ d = coll_spec (db, name) /\ matchf d q = Ok true.
+Proof. exact list_collections_spec. Qed.
+Print Assumptions C01_list_collections_exact.
+
+Theorem C01_list_databases_exact :
+  forall matchf c q res,
+    no_error (fun d => matchf d q) (map (db_spec (cat_ns c)) (db_names (cat_ns c) [])) ->
+    txn_list_databases matchf c q = inl res ->
+    forall d, In d res <->
+              exists db, (exists h nc, In (h, nc) (cat_ns c) /\ fst h = db) /\
+                         d = db_spec (cat_ns c) db /\ matchf d q = Ok true.
+Proof. exact list_databases_spec. Qed.
+Print Assumptions C01_list_databases_exact.
+
+(* "empty" of a database: no namespace of it holds a document *)
+Theorem C01_database_empty_flag :
+  forall l db, db_empty l db = true <-> forall h nc, In (h, nc) l -> fst h = db -> c_docs nc = [].
+Proof. exact db_empty_spec. Qed.
+Print Assumptions C01_database_empty_flag.
+
+(* a listing is the accepted documents sorted by name: as many as accepted *)
+Theorem C01_listing_length :
+  forall matchf l q res,
+    no_error (fun d => matchf d q) l -> filter_sorted matchf l q = inl res ->
+    List.length res = List.length (filter (selb (fun d => matchf d q)) l).
+Proof. exact filter_sorted_length. Qed.
+Print Assumptions C01_listing_length.
+
+Theorem C01_listing_fails_with_the_matcher :
+  forall matchf l1 x l2 q,
+    no_error (fun d => matchf d q) l1 -> (forall b, matchf x q <> Ok b) ->
+    exists e, filter_sorted matchf (l1 ++ x :: l2) q = inr e.
+Proof. exact filter_sorted_error. Qed.
+Print Assumptions C01_listing_fails_with_the_matcher.
+
+Theorem C01_list_collections_invalid_database :
+  forall matchf c db q,
+    valid_handle (db, ""%string) false = false -> txn_list_collections matchf c db q = inr EErr.
+Proof. exact list_collections_invalid_db. Qed.
+Print Assumptions C01_list_collections_invalid_database.
+
+(* CreateCollection: afterwards the namespace exists, every other namespace
+   and every session is what it was; creating an existing one changes nothing *)
+Theorem C01_create_collection_creates :
+  forall matchf applyf extractf projectf now ds sid h ds',
+    xstep matchf applyf extractf projectf now ds (XCreateColl sid h) = (ds', XR ROk) ->
+    (exists nc, ns_get (cat_ns (ds_cat ds')) h = Some nc) /\
+    (forall k, k <> h -> ns_get (cat_ns (ds_cat ds')) k = ns_get (cat_ns (ds_cat ds)) k) /\
+    ds_sessions ds' = ds_sessions ds.
+Proof. exact create_coll_creates. Qed.
+Print Assumptions C01_create_collection_creates.
+
+Theorem C01_create_existing_collection_is_noop :
+  forall matchf applyf extractf projectf now ds sid h nc,
+    ns_get (cat_ns (ds_cat ds)) h = Some nc ->
+    fst (xstep matchf applyf extractf projectf now ds (XCreateColl sid h)) = ds.
+Proof. exact create_coll_existing_noop. Qed.
+Print Assumptions C01_create_existing_collection_is_noop.
+
+(* non-vacuity: a listing over a catalog with two databases *)
+Example C01_listing_nonvacuous :
+  let c := mkCat [(("db", "c"), new_collection true); (("db", "a"), new_collection true);
+                  (("db2", "z"), new_collection true)]%string 0 in
+  (match txn_list_collections (fun _ _ => Ok true) c "db" [] with
+   | inl l => map (fun d => Get d "name") l | inr _ => [] end) = [VString "a"; VString "c"] /\
+  (match txn_list_databases (fun _ _ => Ok true) c [] with
+   | inl l => map (fun d => Get d "name") l | inr _ => [] end) = [VString "db"; VString "db2"].
+Proof. vm_compute. split; reflexivity. Qed.
